@@ -5,14 +5,18 @@ from .tables import is_true, is_false
 from . import c04
 
 EXPLANATION = (
-    "Static clauses: (R1) both declared outcomes are really produced by alpha_beta_search: Err(DepthTooLow) under "
-    "search_depth() < 1 before anything else, Err(NoAvailableMoves) when the root move list is empty, and the "
-    "`pop().unwrap()` that takes the best move is only reachable once the list was found non-empty; (R2) no function "
-    "reachable from the search builds a ChessMove except the move generator (and derived Clone): the returned move is "
-    "an element popped from the scored copies of the generator's list; (R3) every apply / toggle_turn on a borrowed "
-    "board in the search call graph is undone on all paths (C04.R4 instances); the root tasks work on clones; "
-    "(R4) both recursive calls of alpha_beta_minimax pass depth-1 and are guarded by the depth == 0 return. Legality "
-    "beyond 'one of the generator's moves for this position' (R5 imports the cache-key rules of C02/C05) and panics from lock poisoning are NOT decided; (R6) no division by a possibly-zero value in the search call graph; (R7) imports the legality-filter rules C01.R1/R2 (the candidates searched are legal).")
+    'Static clauses: (R1) both declared outcomes are really produced by alpha_beta_search: Err(DepthTooLow) under search_depth() < 1 '
+    'before anything else, Err(NoAvailableMoves) when the root move list is empty, and the `pop().unwrap()` that takes the best move is'
+    ' only reachable once the list was found non-empty; (R2) no function reachable from the search builds a ChessMove except the move '
+    "generator (and derived Clone): the returned move is an element popped from the scored copies of the generator's list; (R3) every "
+    'apply / toggle_turn on a borrowed board in the search call graph is undone on all paths (C04.R4 instances); the root tasks work on'
+    ' clones; (R4) both recursive calls of alpha_beta_minimax pass depth-1 and are guarded by the depth == 0 return. Legality beyond '
+    "'one of the generator's moves for this position' (R5 imports the cache-key rules of C02/C05) and panics from lock poisoning are "
+    'NOT decided; (R6) no division by a possibly-zero value in the search call graph; (R7) imports the legality-filter rules C01.R1/R2 '
+    "(the candidates searched are legal). R3 also imports C04.R4's who-may-call rule for the raw board mutators over the search call "
+    'graph; R7 now imports ALL clauses of C01 (generation, castling guards, pawn geometry, promotions), since the move returned is one '
+    'of the generated moves.'
+)
 ASSUMPTIONS = [
     "rayon's par_iter().map().collect() yields one scored entry per candidate (so a non-empty candidate list gives a non-empty vector)",
     "rustc MIR construction and the chessfacts extractor are faithful",
